@@ -323,6 +323,7 @@ type wireSock struct {
 	eof       bool
 	desync    bool
 	pkts      []*Sx // packets of the current step
+	sizes     []int // their sizes on the wire
 	fifo      []byte
 	connack   bool // a CONNACK has been seen
 	connackOK bool
@@ -373,7 +374,11 @@ func (s *wireSock) parse() {
 		}
 		pkt := wireDecode(s.ver, s.rbuf[:n])
 		s.rbuf = s.rbuf[n:]
+		before := len(s.pkts)
 		s.deliver(pkt)
+		if len(s.pkts) > before {
+			s.sizes = append(s.sizes, n)
+		}
 	}
 }
 
@@ -472,6 +477,7 @@ type wireRunner struct {
 	record     bool
 	hooksCfg   *Sx
 	lastWhy    string
+	withSizes  bool // (opts (sizes 1)): print the wire size of every received packet
 	canonPids  bool // (opts (canon_pids 1)): print broker chosen packet ids as first-appearance ordinals
 	blockSig   string
 	blockSince time.Time
@@ -543,6 +549,7 @@ func wireRun(in *Sx) *Sx {
 	if in.Has("opts") {
 		o := L(in.Field("opts")...)
 		rn.canonPids = o.Has("canon_pids") && o.Field1("canon_pids").Bool()
+		rn.withSizes = o.Has("sizes") && o.Field1("sizes").Bool()
 	}
 	if in.Has("hooks") {
 		rn.hooksCfg = L(in.Field("hooks")...)
@@ -788,8 +795,13 @@ func (rn *wireRunner) step(st *Sx) (extra []*Sx) {
 		if pkt.List[0].Atom == "pingreq" || (pkt.List[0].Atom == "raw" && pkt.List[1].Atom == "xc000") {
 			kind = 'S'
 		}
-		s.write(wireEncode(s.ver, pkt), kind)
-		extra = append(extra, L(A("sent"), I(s.id), pkt))
+		enc := wireEncode(s.ver, pkt)
+		s.write(enc, kind)
+		if rn.withSizes {
+			extra = append(extra, L(A("sent"), I(s.id), pkt, I(len(enc))))
+		} else {
+			extra = append(extra, L(A("sent"), I(s.id), pkt))
+		}
 	case "close":
 		if s := rn.socks[st.List[1].Int()]; s != nil && !s.closedByUs {
 			s.closedByUs = true
@@ -1052,12 +1064,23 @@ func (rn *wireRunner) collect(final bool) []*Sx {
 		s.flush(final)
 		s.mu.Lock()
 		pk := s.pkts
+		sz := s.sizes
 		s.pkts = nil
+		s.sizes = nil
 		s.mu.Unlock()
 		for i, p := range pk {
 			pk[i] = rn.canonPkt(s, p, false)
 		}
-		ents = append(ents, L(I(id), K("pkts", pk...), K("open", Bool(s.isOpen()))))
+		if rn.withSizes {
+			// (opts (sizes 1)): wire size of every packet (flushed undecodable bytes have no entry)
+			xs := []*Sx{}
+			for _, n := range sz {
+				xs = append(xs, I(n))
+			}
+			ents = append(ents, L(I(id), K("pkts", pk...), K("open", Bool(s.isOpen())), K("sizes", xs...)))
+		} else {
+			ents = append(ents, L(I(id), K("pkts", pk...), K("open", Bool(s.isOpen()))))
+		}
 	}
 	return ents
 }
